@@ -88,6 +88,8 @@ func TestC43(t *testing.T) {
 		hs[k] = h
 	}
 	var responses, echoes, closes, nonCanonicalPings int64
+	var churnRejected, churnJoinLeave, churnSeq int
+	churnRng := r.Rng("churn")
 	stalls := 0
 
 	run := func(sc scenario, wd time.Duration) (stalled bool) {
@@ -284,6 +286,37 @@ func TestC43(t *testing.T) {
 			}
 			sc.Ops = append(sc.Ops, o)
 		}
+		// Session churn between status exchanges: logins that are refused (a duplicate of an
+		// online name) and players that join and leave again must not move the advertised count
+		// away from the number of players that are online (the harness knows that number: the k
+		// players logged in at set-up, none of whom ever leaves).
+		if churnRng.Intn(6) == 0 {
+			h := hs[sc.Players]
+			switch kind := churnRng.Intn(2); {
+			case kind == 0 && sc.Players > 0:
+				c := h.NewClient(e2e.ClientOpts{Protocol: 767})
+				res := c.Login(fmt.Sprintf("P%d_%d", sc.Players, churnRng.Intn(sc.Players)), "example.com")
+				c.Close()
+				c.WaitEOF(10 * time.Second)
+				if res.Joined {
+					r.Inconclusive("churn: a duplicate login of an online name was admitted (judged by C11, not here)")
+				}
+				churnRejected++
+			default:
+				name := fmt.Sprintf("T%d_%d", sc.Players, churnSeq)
+				churnSeq++
+				c := h.NewClient(e2e.ClientOpts{Protocol: 767})
+				res := c.Login(name, "example.com")
+				c.Close()
+				c.WaitEOF(10 * time.Second)
+				if res.Joined {
+					for dl := time.Now().Add(10 * time.Second); h.P.PlayerByName(name) != nil && time.Now().Before(dl); {
+						time.Sleep(200 * time.Microsecond)
+					}
+					churnJoinLeave++
+				}
+			}
+		}
 		r.LogCase(sc)
 		stalled := run(sc, 10*time.Second)
 		r.Eval(1)
@@ -314,6 +347,8 @@ func TestC43(t *testing.T) {
 	}
 	r.Set("status_responses_checked", responses)
 	r.Set("ping_echoes_checked", echoes)
+	r.Set("churn_duplicate_logins_refused_between_status_sessions", churnRejected)
+	r.Set("churn_players_joined_and_left_between_status_sessions", churnJoinLeave)
 	r.Set("pings_with_extra_data_or_wide_packet_id", nonCanonicalPings)
 	r.Set("closures_observed", closes)
 }
